@@ -4,9 +4,11 @@ C08 — leaks discharge Cd·A·√(2·g·p) only while active and only at positi
 Theorems are about definitions REGENERATED from the current source on every run (Gen/RowsC08.lean, Gen/RowsC07.lean):
 `m.leak_con[n]`, `m.mass_balance[j]` / `m.pdd_mass_balance[j]` of a zoo (junction and tank leaks, active / inactive /
 isolated, DD and PDD), `leak_poly_coeffs_param`'s spline inputs, `cubic_spline`, `leak_constants`.
-The activation window (time controls) is NOT proved here: it is checked on real simulations by harness/props/c08.py.
+The generated rows are compared SEMANTICALLY with the parametric rows (`Norm.rowSem`, sound by `Norm.rowSem_sound`).  The
+ModelUpdater registrations of the zoo are generated too (section 6).  The activation window is Props/C08Window.lean.
 -/
 import WntrModel.Lemmas.RowsSplineGen
+import WntrModel.Lemmas.RowsNorm
 import WntrModel.Gen.RowsC08
 
 set_option linter.unusedSimpArgs false
@@ -30,6 +32,40 @@ when isolated, none for tanks; `m.leak_con[n]` exists iff `leak_status ∧ ¬iso
 (junction: head variable / elevation parameter; tank: source-head parameter / elevation constant) -/
 theorem gen_rows_are_leakRow :
     GenC08.zoo.all (fun z => z.ok GenC08.leakDelta GenC08.leakSlope twoG) = true := by decide +kernel
+
+/-- the row of a junction leak written differently (`inequality(h − elev, ub = 0)`, `p ≤ δ` as `p − δ ≤ 0`, cubic in
+ascending powers, `(A·Cd)·((h − elev)·2g)**0.5`); `sgn`, `ub`, `g`, `swap` switch on one defect each -/
+def leakRowAlt (h elev : Expr) (rate a b c d area cd : Nat) (delta slope g sgn : Rat) (swap : Bool) : Expr :=
+  let p := eSub h elev
+  let r : Expr := .var rate
+  let A : Expr := .param (if swap then cd else area)
+  let C : Expr := .param (if swap then area else cd)
+  condExpr [
+    (.ineq p none (some 0), eSub r (eMul p (.const (sgn * slope)))),
+    (.ineq (eSub p (.const delta)) none (some 0),
+      eSub r (eAdd (eAdd (eAdd (.param d) (eMul p (.param c))) (eMul (eMul p p) (.param b))) (eMul (eMul (eMul p p) p) (.param a)))),
+    (.const 1, eSub r (eMul (eMul A C) (ePow (eMul p (.const g)) (.const (1 / 2)))))]
+
+/-- **the comparison is semantic and sensitive**: the re-written junction leak row is accepted (also against the tank form of
+the first condition when the elevation is the same constant); a flipped sign of the slope term (seeded C08-1 multiplies by
+another constant), another band bound, another `2g`, or a missing square root are each rejected -/
+theorem leak_rowSem_is_sensitive :
+    let h : Expr := .var 1
+    let el : Expr := .param 1
+    let row := leakRowG (leakCond1 false h el) h el 0 2 3 4 5 6 7 GenC08.leakDelta GenC08.leakSlope twoG
+    Norm.rowSem (leakRowAlt h el 0 2 3 4 5 6 7 GenC08.leakDelta GenC08.leakSlope twoG 1 false) row = true ∧
+    Norm.rowSem (leakRowAlt h el 0 2 3 4 5 6 7 GenC08.leakDelta GenC08.leakSlope twoG 1 true) row = true ∧
+    Norm.rowSem (leakRowAlt h el 0 2 3 4 5 6 7 GenC08.leakDelta GenC08.leakSlope twoG (-1) false) row = false ∧
+    Norm.rowSem (leakRowAlt h el 0 2 3 4 5 6 7 GenC08.leakDelta GenC08.leakDelta twoG 1 false) row = false ∧
+    Norm.rowSem (leakRowAlt h el 0 2 3 4 5 6 7 (2 * GenC08.leakDelta) GenC08.leakSlope twoG 1 false) row = false ∧
+    Norm.rowSem (leakRowAlt h el 0 2 3 4 5 6 7 GenC08.leakDelta GenC08.leakSlope (twoG / 2) 1 false) row = false ∧
+    -- tank form: `inequality(h, ub = elev)` with a float elevation is the same condition as `h − elev ≤ 0`
+    Norm.rowSem (leakRowAlt (.param 0) (.const 20) 0 2 3 4 5 6 7 GenC08.leakDelta GenC08.leakSlope twoG 1 false)
+      (leakRowG (leakCond1 true (.param 0) (.const 20)) (.param 0) (.const 20) 0 2 3 4 5 6 7 GenC08.leakDelta GenC08.leakSlope twoG) = true ∧
+    -- a mass balance with its link terms in another order is accepted, one with a flipped flow sign is not
+    Norm.rowSem (eAdd (eSub (eAdd (eSub (.param 0) (.var 3)) (.var 9)) (.var 2)) (.var 5)) (mbRow (.param 0) [2, 3] [5] (some 9)) = true ∧
+    Norm.rowSem (eAdd (eAdd (eAdd (eSub (.param 0) (.var 3)) (.var 9)) (.var 2)) (.var 5)) (mbRow (.param 0) [2, 3] [5] (some 9)) = false := by
+  decide +kernel
 
 /-- the zoo covers: junction/tank × leak on/off × isolated, in both demand modes -/
 theorem gen_zoo_covers :
@@ -92,6 +128,37 @@ theorem leakRow_eval_tank (env : Env ℝ) (h rate a b c d area cd : Nat) (elev d
     rw [Rat.cast_zero]; constructor <;> intro hh <;> linarith
   simp only [hc]
   split_ifs <;> ring
+
+/-- **every generated leak row means the law**: for every zoo node with a leak row, at EVERY point, the residual of the row the
+code built is `leak_rate − leakRate(head − elevation)` (junction: head variable, elevation parameter; tank: source-head
+parameter, elevation constant) with the node's own area / coefficient / spline parameters -/
+theorem gen_leak_rows_eval (env : Env ℝ) (z : LeakZoo) (hz : z ∈ GenC08.zoo) (r : Expr) (hr : z.leakCon = some r) :
+    eval realOps env r =
+      eval realOps env (leakRowG (leakCond1 z.tank z.h z.elev) z.h z.elev z.rate z.a z.b z.c z.d z.area z.cd
+        GenC08.leakDelta GenC08.leakSlope twoG) := by
+  have hok := List.all_eq_true.1 gen_rows_are_leakRow z hz
+  unfold LeakZoo.ok at hok
+  simp only [Bool.and_eq_true] at hok
+  have h3 := hok.2
+  by_cases hc : z.leakStatus = true ∧ (!z.isolated) = true
+  · rw [if_pos hc, hr] at h3
+    exact Norm.rowSem_sound env _ _ h3
+  · rw [if_neg hc, hr] at h3; exact absurd h3 (by simp)
+
+/-- **every generated mass balance means the balance**: residual = demand − Σ inflow + Σ outflow (+ leak_rate iff leak_status) -/
+theorem gen_mb_rows_eval (env : Env ℝ) (z : LeakZoo) (hz : z ∈ GenC08.zoo) (r : Expr) (hr : z.mb = some r) :
+    eval realOps env r =
+      (if z.demandIsVar then env.var z.demand else env.param z.demand) - (z.inlets.map env.var).sum + (z.outlets.map env.var).sum +
+        (if z.leakStatus then env.var z.rate else 0) := by
+  have hok := List.all_eq_true.1 gen_rows_are_leakRow z hz
+  unfold LeakZoo.ok at hok
+  simp only [Bool.and_eq_true] at hok
+  have h1 := hok.1.1
+  by_cases hc : (z.tank || z.isolated) = true
+  · simp only [hc, if_true, hr] at h1; exact absurd h1 (by simp)
+  · simp only [hc, Bool.false_eq_true, if_false, hr, Norm.rowSemOpt] at h1
+    rw [Norm.rowSem_sound env _ _ h1, mbRow_eval]
+    cases z.demandIsVar <;> cases z.leakStatus <;> simp [eval]
 
 /-! ### 3. the discharge law with the coefficients the code computes -/
 
@@ -202,11 +269,63 @@ theorem removed_stays_off (s : LeakState) (fires : List LeakOp) (hf : ∀ op ∈
       · simp only [LeakState.step]; split_ifs <;> simp [h1]
       · simp only [LeakState.step]; split_ifs <;> simp [h2]
 
+/-! ### 6. rows and parameters are rebuilt when what they depend on changes (ModelUpdater registrations) -/
+
+/-- for every junction and tank of the zoo, DD and PDD, `create_hydraulic_model` registered `leak_status` and `_is_isolated` for
+`leak_constraint`, `leak_area` / `leak_discharge_coeff` for the value parameters AND the smoothing coefficients, and for every
+junction `leak_status` / `_is_isolated` for the mode's own mass-balance Definition.  A dropped or mis-keyed registration
+(seeded C08-4: `'_leak_status'`; C10-6: dropped) breaks this. -/
+theorem updater_registers_leak :
+    (GenC08.regsDD.all fun n => subsetB (leakDeps n.tank) n.regs && (n.tank || subsetB (balanceDeps false) n.regs)) = true ∧
+    (GenC08.regsPDD.all fun n => subsetB (leakDeps n.tank) n.regs && (n.tank || subsetB (balanceDeps true) n.regs)) = true ∧
+    GenC08.regsDD.map (·.name) ++ GenC08.regsPDD.map (·.name) = GenC08.zoo.map (·.name) ∧
+    (GenC08.regsDD.any (·.tank)) = true := by
+  refine ⟨?_, ?_, ?_, ?_⟩ <;> decide +kernel
+
+/-- **what a Definition reads, it is re-run for**: every node attribute the `build` of a leak / mass-balance Definition really
+READS (recorded at run time on a junction and on a tank) is registered for it on every zoo node of that kind — except a tank's
+`elevation`, a constant of its leak row by design; and the recorded reads are the documented ones -/
+theorem leak_definitions_rebuilt_on_what_they_read :
+    (GenC08.regsDD.all (readsRegistered GenC08.defReads)) = true ∧
+    (GenC08.regsPDD.all (readsRegistered GenC08.defReads)) = true ∧
+    GenC08.defReads =
+      [⟨"leak_constraint", false, ["_is_isolated", "leak_status"]⟩,
+       ⟨"leak_constraint", true, ["_is_isolated", "elevation", "leak_status"]⟩,
+       ⟨"leak_coeff_param", false, ["leak_discharge_coeff"]⟩, ⟨"leak_coeff_param", true, ["leak_discharge_coeff"]⟩,
+       ⟨"leak_area_param", false, ["leak_area"]⟩, ⟨"leak_area_param", true, ["leak_area"]⟩,
+       ⟨"leak_poly_coeffs_param", false, ["leak_area", "leak_discharge_coeff"]⟩,
+       ⟨"leak_poly_coeffs_param", true, ["leak_area", "leak_discharge_coeff"]⟩,
+       ⟨"elevation_param", false, ["elevation"]⟩,
+       ⟨"mass_balance_constraint", false, ["_is_isolated", "leak_status"]⟩,
+       ⟨"pdd_mass_balance_constraint", false, ["_is_isolated", "leak_status"]⟩] := by
+  refine ⟨?_, ?_, ?_⟩ <;> decide +kernel
+
+/-- hence (`updateDef`: one model update for one Definition of one node) the leak row / the balance in the model is the one of
+the node's CURRENT `leak_status` and isolation: with both registered, the Definition is rebuilt from the current values -/
+theorem leak_row_follows_status (regs : List (String × String)) (cls : String) (built cur : Attrs)
+    (h1 : ("leak_status", cls) ∈ regs) (h2 : ("_is_isolated", cls) ∈ regs) :
+    updateDef regs cls ["leak_status", "_is_isolated"] built cur "leak_status" = cur "leak_status" ∧
+    updateDef regs cls ["leak_status", "_is_isolated"] built cur "_is_isolated" = cur "_is_isolated" := by
+  have key : ∀ a, a = "leak_status" ∨ a = "_is_isolated" →
+      updateDef regs cls ["leak_status", "_is_isolated"] built cur a = cur a := by
+    intro a ha
+    unfold updateDef
+    split_ifs with h
+    · rfl
+    · by_contra hne
+      apply h
+      rw [List.any_eq_true]
+      refine ⟨a, ?_, ?_⟩
+      · simp only [changedAttrs, List.mem_filter, bne_iff_ne, ne_eq, List.mem_cons, List.not_mem_nil, or_false]
+        exact ⟨ha, hne⟩
+      · rcases ha with rfl | rfl <;> simpa
+  exact ⟨key _ (Or.inl rfl), key _ (Or.inr rfl)⟩
+
 /-- non-vacuity: a leak added with a window, started, then removed while active -/
 example : (({} : LeakState).run [.add 1 (3/4) (some 0) (some 3600), .fireStart]).status = true ∧
     ((({} : LeakState).run [.add 1 (3/4) (some 0) (some 3600), .fireStart]).step .remove).1.status = false := by decide
 
 /-- non-vacuity of the zoo: it does contain active leak rows -/
-example : (GenC08.zoo.filter (fun z => z.leakCon.isSome)).length = 6 := by decide +kernel
+example : (GenC08.zoo.filter (fun z => z.leakCon.isSome)).length = 6 ∧ GenC08.zoo.length = 24 := by decide +kernel
 
 end Wntr.Rows
